@@ -265,6 +265,12 @@ func (w *vfWorld) audit() vfAudit {
 			for _, c := range n.ChildrenIDs {
 				queue = append(queue, c)
 			}
+			// values kept outside the node are blobs named by the item id
+			for i := 0; i < n.Count && i < len(n.Slots); i++ {
+				// (the stored node does not flag it: the item id is the blob id whenever the
+				// store keeps values outside the nodes; harmless otherwise)
+				a.reachBlobs[n.Slots[i].ID] = true
+			}
 		}
 	}
 	return a
